@@ -1,7 +1,17 @@
 (* Property C08: no peer crashes on traffic a conforming peer can send.
-   Part 1: exact local conditions under which the model sets p_panic (all states, orders, oracles).
-   Part 2: global no-panic theorems over all traces.
-   Part 3: a peer that ignores a message keeps running; the flag is the only thing that stops it. *)
+   Part 1 (all states, orders, oracles): exact conditions under which add_child / apply_cmd /
+     app_step set p_panic; frame_panic_sites (a frame never yields PEntityMutDead),
+     frame_panic_only_self_parent, frame_no_panic / frame_parents_ok (under parents_ok), with the
+     flush and run_system versions.
+   Part 3: frame is total, the flag is the only thing that stops it; ignored messages leave the
+     state as it was.
+   Part 2 (all traces):
+     A  C08_no_panic_modulo_self_links     no panic as long as nobody emits MParented u u
+     B  C08_no_panic_no_hierarchy          no OSetParent in the trace
+     C  C08_no_panic_distinct_uuid_links   the application links only entities of different uuids
+        (corollary C08_no_panic_own_hierarchy: only entities it spawned itself)
+     C08_no_panic_statement_refuted        the unrestricted statement is false in the model, with
+        three witnesses (untruthful oracles twice, an order Bevy does not build once). *)
 From stdpp Require Import gmap list.
 From Coq Require Import NArith Lia.
 From RecordUpdate Require Import RecordSet.
@@ -216,7 +226,7 @@ Definition cmd_ok (c : cmd) : Prop :=
   | _ => True
   end.
 (* in-flight messages: no link of an entity to itself *)
-Definition msg_ok (m : msg) : Prop := match m with MParented c p => c <> p | _ => True end.
+Definition msg_ok (m : msg) : Prop := msg_distinct m.
 
 (* parents_ok: every queued command is cmd_ok; no inbox holds MParented u u; uuid_to_entity is
    injective, maps below the entity allocator, registers script entities (ids below 2^32) under
@@ -888,6 +898,388 @@ Proof.
   apply (grun_I3 tr (init_global n) [] [] Hi Hc Hnh p pr H).
 Qed.
 
+(* ---------- theorem C: hierarchies between entities of different uuids --------------------------------- *)
+
+(* the uuid an entity id stands for, as the application can see it: a script entity is (or will be)
+   announced under its own id, a replica carries the uuid in its SyncEntity *)
+Definition ent_uuid (pr : peer_state) (e : ent) : option uuid :=
+  if e <? 4294967296 then Some e
+  else match p_ents pr !! e with Some en => en_sync en | None => None end.
+
+(* as op_conforming, and the two ends of a new link do not carry the same uuid (always true when
+   both are entities the application spawned itself, and whenever the peer holds no duplicate) *)
+Definition op_conforming_links (pr : peer_state) (used marked : list ent) (op : app_op) : bool :=
+  op_conforming pr used marked op &&
+  match op with
+  | OSetParent c p =>
+      match ent_uuid pr c, ent_uuid pr p with
+      | Some a, Some b => negb (a =? b)
+      | _, _ => false
+      end
+  | _ => true
+  end.
+Definition step_conforming_links (g : global) (used marked : list ent) (s : step) : bool :=
+  match s with
+  | StApp p op => match g !! p with Some pr => op_conforming_links pr used marked op | None => true end
+  | _ => true
+  end.
+Fixpoint conforming_links_from (g : global) (used marked : list ent) (tr : list step) : bool :=
+  match tr with
+  | [] => true
+  | s :: tr' => step_conforming_links g used marked s &&
+                conforming_links_from (gstep g s) (used_after used s) (marked_after marked s) tr'
+  end.
+Definition conforming_links (n : nat) (tr : list step) : Prop :=
+  conforming_links_from (init_global n) [] [] tr = true.
+
+Lemma conforming_links_conforming_from tr : forall g used marked,
+  conforming_links_from g used marked tr = true -> conforming_from g used marked tr = true.
+Proof.
+  induction tr as [|s tr IH]; intros g used marked H; simpl in *; [reflexivity|].
+  apply andb_true_iff in H as [H1 H2]. apply andb_true_iff. split; [|apply IH; exact H2].
+  destruct s as [p op|p o|dst src i j]; simpl in *; try reflexivity.
+  destruct (g !! p) as [pr|]; [|reflexivity]. unfold op_conforming_links in H1.
+  apply andb_true_iff in H1 as [H1 _]. exact H1.
+Qed.
+Lemma conforming_links_conforming n tr : conforming_links n tr -> conforming n tr.
+Proof. apply conforming_links_conforming_from. Qed.
+
+(* the invariant; cs is the list of commands a flush is in the middle of applying *)
+Definition J5 (pr : peer_state) (cs : list cmd) : Prop :=
+  GI true link_cmd_ok msg_ok pr /\ app_all app_only pr /\ Forall link_cmd_ok cs /\
+  link_inv pr cs /\ out_all msg_ok pr /\ p_panic pr = None.
+Definition I5 (pr : peer_state) : Prop := J5 pr [].
+
+Lemma link_cmd_ok_cmd_ok c : link_cmd_ok c -> cmd_ok c.
+Proof. destruct c; simpl; auto. Qed.
+Lemma benign_link_cmd_ok c : benign c -> link_cmd_ok c.
+Proof. destruct c; simpl; auto. destruct m; simpl; auto. Qed.
+
+Lemma I5_parents_ok pr : I5 pr -> parents_ok pr.
+Proof. intros (H & _). eapply GI_weaken; [exact link_cmd_ok_cmd_ok|exact H]. Qed.
+
+Lemma I5_respects : respects_core I5.
+Proof.
+  intros pr pr' H Ho (H1 & H2 & H3 & H4 & H5 & H6).
+  split; [eapply GI_core; eassumption|].
+  split; [eapply app_all_ext; [apply (core_app _ _ H)|exact H2]|].
+  split; [exact H3|]. split; [eapply link_inv_core; eassumption|].
+  split; [eapply out_all_ext; [exact Ho|exact H5]|]. rewrite (core_panic _ _ H). exact H6.
+Qed.
+
+Lemma J5_take pr k cs :
+  J5 pr [] -> p_cmdq pr !! k = Some cs -> J5 (pr <| p_cmdq := delete k (p_cmdq pr) |>) cs.
+Proof.
+  intros (H1 & H2 & _ & H4 & H5 & H6) Hk.
+  split; [apply GI_delete; exact H1|]. split; [exact H2|].
+  split; [apply Forall_forall; intros c Hc; destruct H1 as (Hq & _); eapply Hq; eassumption|].
+  split; [apply link_inv_take; assumption|]. split; [exact H5|exact H6].
+Qed.
+
+Lemma J5_apply_cmd pr c cs : J5 pr (c :: cs) -> J5 (apply_cmd pr c) cs.
+Proof.
+  intros (H1 & H2 & H3 & H4 & H5 & H6). inversion H3 as [|? ? Hc Hcs]; subst.
+  split; [apply GI_apply_cmd; exact H1|].
+  split; [eapply app_all_ext; [apply (proj1 (rest_inv _ _ (apply_cmd_rest pr c)))|exact H2]|].
+  split; [exact Hcs|]. split; [apply apply_cmd_link; assumption|].
+  split; [eapply apply_cmd_out_links; eassumption|].
+  rewrite (apply_cmd_panic pr c H6). apply cmd_ok_no_panic; [apply H1|apply link_cmd_ok_cmd_ok; exact Hc].
+Qed.
+
+Lemma I5_flush pr : I5 pr -> I5 (flush pr).
+Proof.
+  apply (flush_inv2 J5).
+  - apply J5_take.
+  - apply J5_apply_cmd.
+  - intros a cs (_ & _ & _ & _ & _ & H). exact H.
+Qed.
+
+Lemma I5_sys_body pr s o k last : I5 pr -> I5 (sys_body pr s o k last).
+Proof.
+  intros (H1 & H2 & H3 & H4 & H5 & H6).
+  destruct (pe_inv _ _ (sys_body_pe pr s o k last)) as [Hp He].
+  split; [|split; [|split; [exact H3|split; [|split; [|rewrite Hp; exact H6]]]]].
+  - apply sys_body_GI; [exact benign_link_cmd_ok| | |exact H1].
+    + intros from cu pu Hm. exact Hm.
+    + intros a cu pu ce pe' Hu Hm Hc' Hp' Heq. subst pe'. apply Hm. eapply u2e_ok_inj; eassumption.
+  - intros x Hx. apply H2. eapply sys_body_app_sub. exact Hx.
+  - apply sys_body_link; [apply H1|apply H1|exact H2|exact H4].
+  - apply sys_body_out_links; assumption.
+Qed.
+
+Lemma I5_frame pr o : I5 pr -> I5 (frame pr o).
+Proof.
+  apply frame_inv.
+  - exact I5_respects.
+  - intros a (H1 & H2 & H3 & H4 & H5 & H6).
+    split; [eapply GI_core; [|exact H1]; reflexivity|]. split; [exact H2|]. split; [exact H3|].
+    split; [eapply link_inv_core; [|exact H4]; reflexivity|].
+    split; [|exact H6]. intros d m Hin. simpl in Hin. inversion Hin.
+  - intros a h (H1 & H2 & H3 & H4 & H5 & H6).
+    split; [eapply GI_core; [apply send_up_core|exact H1]|].
+    split; [eapply app_all_ext; [apply (core_app _ _ (send_up_core _ _))|exact H2]|].
+    split; [exact H3|]. split; [eapply link_inv_core; [apply send_up_core|exact H4]|].
+    split; [apply send_up_out_all; [exact H5|exact I]|].
+    rewrite (core_panic _ _ (send_up_core _ _)). exact H6.
+  - intros a Ha _. apply I5_flush. exact Ha.
+  - intros a s' o' k last. apply I5_sys_body.
+Qed.
+
+Lemma link_inv_spawn pr e en :
+  e < SCRIPT_LIMIT -> en_sync en = None -> en_parent en = None ->
+  link_inv pr [] -> link_inv (pr <| p_ents := <[e := en]> (p_ents pr) |>) [].
+Proof.
+  intros Hlt Hs Hp HI.
+  apply (link_inv_step pr []); try assumption.
+  - simpl. lia.
+  - intros x v _ [H|[(en' & Hl & Hs')|H]].
+    + left. left. exact H.
+    + simpl in Hl. destruct (decide (x = e)) as [->|Hne].
+      * rewrite lookup_insert in Hl. injection Hl as <-. congruence.
+      * rewrite lookup_insert_ne in Hl by congruence. left. right. left. exists en'. split; assumption.
+    + left. right. right. exact H.
+  - intros x Hno Ho. exfalso. apply Hno. exact Ho.
+  - intros v x H. left. exact H.
+  - intros x en' q t Hl Hp'. simpl in Hl. destruct (decide (x = e)) as [->|Hne].
+    + rewrite lookup_insert in Hl. injection Hl as <-. congruence.
+    + rewrite lookup_insert_ne in Hl by congruence. left. exists en', t. split; assumption.
+  - intros x en' Hl. simpl in Hl. destruct (decide (x = e)) as [->|Hne].
+    + right. unfold old. simpl. pose proof (li_next _ _ HI). lia.
+    + rewrite lookup_insert_ne in Hl by congruence. left. exists en'. exact Hl.
+  - intros x v H. left. exists v. exact H.
+  - intros x v H. left. exact H.
+  - intros x v H. left. exact H.
+  - intros x y H. left. exact H.
+Qed.
+
+Lemma spawned_entity_blank now marked comps :
+  let en := foldl (fun en '(t, v) => put_comp now t v en)
+                  (new_entity <| en_mark := if (marked : bool) then Some now else None |>) comps in
+  en_sync en = None /\ en_parent en = None.
+Proof.
+  cbv zeta. apply (foldl_inv (fun en => en_sync en = None /\ en_parent en = None)); [split; reflexivity|].
+  intros a [t v] _ [H1 H2]. destruct (put_comp_sync_parent now t v a) as [-> ->]. split; assumption.
+Qed.
+
+(* what the application sees as the uuid of a live entity is what the entity id stands for *)
+Lemma ent_uuid_ident pr e a :
+  link_inv pr [] -> alive pr e = true -> ent_uuid pr e = Some a -> old pr e /\ ident pr [] e a.
+Proof.
+  intros HI Hal Hu. unfold alive in Hal. destruct (p_ents pr !! e) as [en|] eqn:E; [|discriminate].
+  pose proof (li_live _ _ HI e en E) as Ho. split; [exact Ho|].
+  destruct (li_fc _ _ HI e Ho) as [u0 Hu0]. unfold ent_uuid in Hu. rewrite E in Hu.
+  destruct (e <? 4294967296) eqn:Elt.
+  - injection Hu as <-. apply N.ltb_lt in Elt.
+    assert (u0 = e) by (apply Hu0; exact Elt). subst u0. exact Hu0.
+  - assert (a = u0) by (apply Hu0; right; left; exists en; split; [exact E|exact Hu]).
+    subst a. exact Hu0.
+Qed.
+
+Lemma app_cmd_ok_link c : app_cmd_ok c = true -> link_cmd_ok c /\ app_only c.
+Proof. destruct c; simpl; intros H; try discriminate; split; exact I. Qed.
+
+(* fields of `rest` unchanged, entities shrunk: the invariant of theorem C is kept *)
+Lemma I5_ents pr pr' :
+  rest pr' = rest pr -> p_out pr' = p_out pr -> p_panic pr' = None ->
+  ents_all mark_ok pr' -> link_inv pr' [] -> I5 pr -> I5 pr'.
+Proof.
+  intros Hr Ho Hp Hm Hl (H1 & H2 & H3 & _ & H5 & _).
+  split; [apply (GI_rest _ _ _ pr); [exact Hr|intros _; exact Hm|exact H1]|].
+  split; [eapply app_all_ext; [apply (proj1 (rest_inv _ _ Hr))|exact H2]|].
+  split; [exact H3|]. split; [exact Hl|]. split; [eapply out_all_ext; [exact Ho|exact H5]|exact Hp].
+Qed.
+
+Lemma link_inv_rest_shrink pr pr' :
+  rest pr' = rest pr -> ents_shrink (p_ents pr) (p_ents pr') -> link_inv pr [] -> link_inv pr' [].
+Proof.
+  intros Hr He HI. pose proof (rest_e2u _ _ Hr) as He2u.
+  apply rest_inv in Hr as (_ & Hu & _ & Hn & Hq).
+  apply (link_inv_shrink pr []); try assumption.
+  - rewrite He2u. auto.
+  - rewrite Hu. auto.
+  - intros c _. unfold queued. rewrite Hq. auto.
+Qed.
+
+Lemma I5_app_step pr used marked op :
+  I5 pr -> op_conforming_links pr used marked op = true -> I5 (app_step pr op).
+Proof.
+  intros HI Hop. unfold op_conforming_links in Hop. apply andb_true_iff in Hop as [Hop Hlk].
+  pose proof HI as (H1 & H2 & H3 & H4 & H5 & H6).
+  pose proof (parents_ok_marks pr (I5_parents_ok pr HI)) as Hm.
+  destruct op; simpl in Hop, Hlk |- *.
+  - apply andb_true_iff in Hop as [He _]. apply N.ltb_lt in He.
+    destruct (spawned_entity_blank (p_tick pr) marked0 comps) as [Hs Hp].
+    apply (I5_ents pr); [reflexivity|reflexivity|exact H6| |apply link_inv_spawn; assumption|exact HI].
+    apply ents_all_insert; [|exact Hm]. intros _. exact He.
+  - apply (I5_ents pr); [reflexivity|reflexivity|exact H6| | |exact HI].
+    + apply ents_all_delete. exact Hm.
+    + apply (link_inv_rest_shrink pr); [reflexivity|apply ents_shrink_delete|exact H4].
+  - apply andb_true_iff in Hop as [Hop _]. apply N.ltb_lt in Hop.
+    apply (I5_ents pr); [apply upd_ent_rest|apply upd_ent_out|rewrite upd_ent_panic; exact H6| | |exact HI].
+    + apply upd_ent_ents_all; [|exact Hm]. intros en _ _. exact Hop.
+    + apply (link_inv_rest_shrink pr); [apply upd_ent_rest| |exact H4].
+      apply ents_shrink_upd. intros en. split; reflexivity.
+  - apply (I5_ents pr); [apply upd_ent_rest|apply upd_ent_out|rewrite upd_ent_panic; exact H6| | |exact HI].
+    + apply upd_ent_ents_all; [|exact Hm]. intros en Hen. unfold mark_ok, put_comp in *.
+      destruct (en_comps en !! t); exact Hen.
+    + apply (link_inv_rest_shrink pr); [apply upd_ent_rest| |exact H4].
+      apply ents_shrink_upd. intros en. apply put_comp_sync_parent.
+  - apply (I5_ents pr); [apply upd_ent_rest|apply upd_ent_out|rewrite upd_ent_panic; exact H6| | |exact HI].
+    + apply upd_ent_ents_all; [|exact Hm]. intros en Hen. exact Hen.
+    + apply (link_inv_rest_shrink pr); [apply upd_ent_rest| |exact H4].
+      apply ents_shrink_upd. intros en. split; reflexivity.
+  - apply andb_true_iff in Hop as [Hop Hcp]. apply andb_true_iff in Hop as [Hc Hp].
+    rewrite Hc.
+    destruct (ent_uuid pr c) as [a|] eqn:Ea; [|discriminate].
+    destruct (ent_uuid pr p) as [b|] eqn:Eb; [|discriminate].
+    apply negb_true_iff, N.eqb_neq in Hlk.
+    destruct (ent_uuid_ident pr c a H4 Hc Ea) as [Hoc Hic].
+    destruct (ent_uuid_ident pr p b H4 Hp Eb) as [Hop' Hip].
+    pose proof (add_child_rest pr p c) as Hr.
+    apply (I5_ents pr); [exact Hr|apply add_child_out| | | |exact HI].
+    + rewrite (add_child_panic pr p c H6). unfold add_child_outcome. rewrite Hp. simpl.
+      rewrite N.eqb_sym. apply negb_true_iff in Hcp. rewrite Hcp. reflexivity.
+    + apply add_child_ents_all; [exact mark_ok_blind|exact Hm].
+    + pose proof (rest_e2u _ _ Hr) as He2u. apply rest_inv in Hr as (_ & Hu & _ & Hn & Hq).
+      apply (link_inv_parent_step pr [] _ [] c p); try assumption.
+      * apply add_child_parent_step.
+      * intros x _. unfold queued. rewrite Hq. auto.
+      * exists a, b. split; [exact Hlk|split; assumption].
+  - apply (I5_respects pr); [apply insert_asset_core|reflexivity|exact HI].
+  - apply (I5_respects pr); [reflexivity|reflexivity|exact HI].
+  - destruct (app_cmd_ok_link c Hop) as [Hc1 Hc2].
+    split; [|split; [apply app_all_snoc; assumption|split; [exact H3|split; [|split; [exact H5|exact H6]]]]].
+    + destruct H1 as (G1 & G2 & G3 & G4).
+      split; [exact G1|split; [|split; [exact G3|exact G4]]]. apply app_all_snoc; assumption.
+    + apply (link_inv_shrink pr []); try exact H4; try reflexivity; auto. apply ents_shrink_refl.
+  - apply (I5_respects pr); [destruct host; reflexivity|destruct host; reflexivity|exact HI].
+  - apply (I5_respects pr); [reflexivity|reflexivity|exact HI].
+  - apply (I5_respects pr); [reflexivity|reflexivity|exact HI].
+  - apply (I5_respects pr); [reflexivity|reflexivity|exact HI].
+  - apply (I5_respects pr); [reflexivity|reflexivity|exact HI].
+  - apply (I5_respects pr); [reflexivity|reflexivity|exact HI].
+Qed.
+
+Lemma I5_inbox pd (ib : gmap peer (list msg)) :
+  I5 pd -> inbox_all msg_ok (pd <| n_inbox := ib |>) -> I5 (pd <| n_inbox := ib |>).
+Proof.
+  intros (H1 & H2 & H3 & H4 & H5 & H6) Hib.
+  split; [apply GI_inbox; assumption|]. split; [exact H2|]. split; [exact H3|].
+  split; [|split; [exact H5|exact H6]].
+  apply (link_inv_shrink pd []); try exact H4; try reflexivity; auto. apply ents_shrink_refl.
+Qed.
+
+Lemma I5_inbox_push pd src m : I5 pd -> msg_ok m -> I5 (inbox_push pd src m).
+Proof.
+  intros HI Hm. apply I5_inbox; [exact HI|]. apply inbox_all_push; [apply HI|exact Hm].
+Qed.
+
+Lemma link_inv_init p : link_inv (init_peer p [] [] []) [].
+Proof.
+  assert (Hq : forall c, ~ queued (init_peer p [] [] []) [] c).
+  { intros c [H|(k & cs & Hl & _)]; [inversion H|]. simpl in Hl. rewrite lookup_empty in Hl. discriminate. }
+  assert (Hf : forall e u, ~ fact (init_peer p [] [] []) [] e u).
+  { intros e u [H|[(en & Hl & _)|H]].
+    - simpl in H. rewrite lookup_empty in H. discriminate.
+    - simpl in Hl. rewrite lookup_empty in Hl. discriminate.
+    - exact (Hq _ H). }
+  constructor.
+  - intros e _. exists e. split; [reflexivity|]. intros u' H. exfalso. exact (Hf _ _ H).
+  - intros u e H. simpl in H. rewrite lookup_empty in H. discriminate.
+  - intros e en q t H. simpl in H. rewrite lookup_empty in H. discriminate.
+  - intros e en H. simpl in H. rewrite lookup_empty in H. discriminate.
+  - intros e u H. simpl in H. rewrite lookup_empty in H. discriminate.
+  - intros e u H. exfalso. exact (Hq _ H).
+  - intros e u H. exfalso. exact (Hq _ H).
+  - intros c q H. exfalso. exact (Hq _ H).
+  - simpl. unfold SCRIPT_LIMIT. lia.
+Qed.
+
+Lemma I5_init p : I5 (init_peer p [] [] []).
+Proof.
+  destruct (I2_init p) as [Hp Hn].
+  split; [|split; [|split; [constructor|split; [apply link_inv_init|split; [|exact Hn]]]]].
+  - destruct Hp as (_ & _ & G3 & G4).
+    split; [intros k cs c Hl; simpl in Hl; rewrite lookup_empty in Hl; discriminate|].
+    split; [intros x Hx; inversion Hx|]. split; [exact G3|exact G4].
+  - intros x Hx. inversion Hx.
+  - intros d m Hin. inversion Hin.
+Qed.
+
+Lemma gstep_I5 g used marked s :
+  all_peers I5 g -> step_conforming_links g used marked s = true -> all_peers I5 (gstep g s).
+Proof.
+  intros Hg Hc. destruct s as [p op|p o|dst src i j]; simpl in *.
+  - destruct (g !! p) as [pr|] eqn:E; [|exact Hg].
+    apply all_peers_insert; [exact Hg|]. eapply I5_app_step; [eapply Hg; exact E|exact Hc].
+  - destruct (g !! p) as [pr|] eqn:E; [|exact Hg].
+    pose proof (I5_frame pr o (Hg p pr E)) as Hf.
+    apply (deliver_out_inv I5 msg_ok).
+    + intros pd m. apply I5_inbox_push.
+    + apply Hf.
+    + apply all_peers_insert; [exact Hg|exact Hf].
+  - destruct (g !! dst) as [pd|] eqn:E; [|exact Hg].
+    destruct (n_inbox pd !! src) as [l|] eqn:El; [|exact Hg].
+    apply all_peers_insert; [exact Hg|].
+    apply I5_inbox; [eapply Hg; exact E|]. apply inbox_all_reorder; [exact El|]. apply (Hg dst pd E).
+Qed.
+
+Lemma grun_I5 tr : forall g used marked,
+  all_peers I5 g -> conforming_links_from g used marked tr = true -> all_peers I5 (grun g tr).
+Proof.
+  induction tr as [|s tr IH]; intros g used marked Hg Hc; simpl; [exact Hg|].
+  simpl in Hc. apply andb_true_iff in Hc as [Hc1 Hc2].
+  apply (IH (gstep g s) (used_after used s) (marked_after marked s)); [|exact Hc2].
+  eapply gstep_I5; eassumption.
+Qed.
+
+(* Theorem C.  Every number of peers; every trace of an application that issues no insert command,
+   marks each of its own entities at most once, and links only live entities carrying different
+   uuids; all frames, executable orders, oracles (truthful or not), interleavings, reorderings,
+   registrations, set-ups, joins, role changes, promotions: no peer ever panics, no peer ever emits
+   a link of an entity to itself, and parents_ok is an invariant of every peer. *)
+Theorem C08_no_panic_distinct_uuid_links n tr :
+  conforming_links n tr ->
+  forall p pr, grun (init_global n) tr !! p = Some pr ->
+    p_panic pr = None /\ parents_ok pr /\ (forall d u, (d, MParented u u) ∉ p_out pr).
+Proof.
+  intros Hc p pr H.
+  assert (Hi : all_peers I5 (init_global n)).
+  { intros q pq Hq. apply init_global_lookup in Hq as ->. apply I5_init. }
+  pose proof (grun_I5 tr (init_global n) [] [] Hi Hc p pr H) as HI.
+  split; [apply HI|]. split; [apply I5_parents_ok; exact HI|].
+  intros d u Hin. destruct HI as (_ & _ & _ & _ & Ho & _). apply (Ho d _ Hin). reflexivity.
+Qed.
+
+(* in particular: a peer that only ever links entities it spawned itself *)
+Definition own_links_only (tr : list step) : Prop :=
+  Forall (fun s => match s with
+                   | StApp _ (OSetParent c p) => c < 4294967296 /\ p < 4294967296
+                   | _ => True
+                   end) tr.
+
+Lemma own_links_conforming_from tr : forall g used marked,
+  own_links_only tr -> conforming_from g used marked tr = true ->
+  conforming_links_from g used marked tr = true.
+Proof.
+  induction tr as [|s tr IH]; intros g used marked Ho H; simpl in *; [reflexivity|].
+  inversion Ho as [|? ? Hs Htr]; subst.
+  apply andb_true_iff in H as [H1 H2]. apply andb_true_iff. split; [|apply IH; assumption].
+  destruct s as [p op|p o|dst src i j]; simpl in *; try reflexivity.
+  destruct (g !! p) as [pr|]; [|reflexivity]. unfold op_conforming_links. rewrite H1. simpl.
+  destruct op; try reflexivity. destruct Hs as [Hc Hp].
+  unfold ent_uuid. apply N.ltb_lt in Hc, Hp. rewrite Hc, Hp.
+  simpl in H1. apply andb_true_iff in H1 as [_ H1]. exact H1.
+Qed.
+
+Corollary C08_no_panic_own_hierarchy n tr :
+  conforming n tr -> own_links_only tr ->
+  forall p pr, grun (init_global n) tr !! p = Some pr -> p_panic pr = None.
+Proof.
+  intros Hc Ho p pr H.
+  apply (C08_no_panic_distinct_uuid_links n tr (own_links_conforming_from tr _ _ _ Ho Hc) p pr H).
+Qed.
+
 (* ---------- boolean check of no_self_link_sent (for examples) ---------------------------------------- *)
 
 Definition msg_okb (m : msg) : bool := match m with MParented c p => negb (c =? p) | _ => true end.
@@ -1155,17 +1547,34 @@ Example remark_panics :
   p_panic <$> (grun (init_global 2) remark !! 1) = Some (Some PSetParentSelf).
 Proof. split; vm_compute; reflexivity. Qed.
 
-(* What remains for the full statement: a premise `valid_session` on the trace saying that
-   (i) the renet oracles are truthful (fo_clients / fo_srv_poll of a host list only peers whose
-   client transport points to it, never the host itself; a peer polls as a host only messages sent
-   to it as a host) and (ii) every order set by OSetOrder is one Bevy builds for the plugin (the
-   chains of src/client/mod.rs and src/server/mod.rs with their sync points), and, under it, the
-   invariant "no peer holds two live entities with the same uuid" (the uniqueness half of C01),
-   which gives no_self_link_sent and hence, by theorem A, C08_no_panic_statement. *)
+(* Theorem C draws the line exactly: the session `demo` (a hierarchy between two entities of the
+   host, replicated, echoed, re-sent in the snapshot) is covered ... *)
+Example demo_conforming_links : conforming_links 2 demo.
+Proof. vm_compute. reflexivity. Qed.
+Example demo_by_theorem_C p pr : grun (init_global 2) demo !! p = Some pr -> p_panic pr = None.
+Proof. intros H. apply (C08_no_panic_distinct_uuid_links 2 demo demo_conforming_links p pr H). Qed.
+(* ... and each of the three panicking witnesses has the application link two replicas that carry
+   the same uuid: that operation is the only thing conforming_links rejects in them *)
+Example witnesses_link_equal_uuids :
+  conforming_links_from (init_global 3) [] [] three_hosts = false /\
+  conforming_links_from (init_global 1) [] [] self_client = false /\
+  conforming_links_from (init_global 3) [] [] odd_order = false.
+Proof. repeat split; vm_compute; reflexivity. Qed.
+
+(* What remains for the full statement C08_no_panic_statement (false as it stands, see above): the
+   operation theorem C excludes - linking two live entities that carry the same uuid - can only be
+   performed on a peer that holds two live entities with one uuid.  The three witnesses show that
+   this needs (i) renet oracles that are not truthful (a host listed as its own client, hosts that
+   are each other's clients), or (ii) an executable order Bevy does not build for the plugin
+   (entity_removed_from_client between poll_for_messages and its sync point), or (iii) SyncMark
+   inserted twice on one entity (excluded by conforming: a model convention).  Under a premise
+   `valid_session` stating (i) and (ii) one has to prove the uniqueness half of C01 ("no peer ever
+   holds two live entities with the same uuid"); then conforming implies conforming_links along
+   the run and theorem C gives C08_no_panic_statement. *)
 
 (* names asked for by the proof conventions *)
 Definition C08_refuted := C08_refuted_with_arbitrary_oracles.
-Definition C08_no_panic_partial := C08_no_panic_modulo_self_links.
+Definition C08_no_panic_partial := C08_no_panic_distinct_uuid_links.
 
 Print Assumptions frame_panic_sites.
 Print Assumptions frame_panic_only_self_parent.
@@ -1175,6 +1584,8 @@ Print Assumptions apply_cmd_panic_exact.
 Print Assumptions app_step_panic_exact.
 Print Assumptions C08_no_panic_modulo_self_links.
 Print Assumptions C08_no_panic_no_hierarchy.
+Print Assumptions C08_no_panic_distinct_uuid_links.
+Print Assumptions C08_no_panic_own_hierarchy.
 Print Assumptions no_hierarchy_no_parented.
 Print Assumptions C08_refuted.
 Print Assumptions C08_no_panic_partial.
